@@ -1,4 +1,5 @@
 """C09 - a task signature maps to a well-formed CLI whose parsed values always bind."""
+import copy
 import inspect
 import itertools
 import re
@@ -86,9 +87,21 @@ def all_underscores(name):
 
 def build_body(params):
     sig = ", ".join(n if KINDS[k][0] is None else "%s=%s" % (n, KINDS[k][0]) for n, k in params)
-    ns = {}
-    exec("def body(c%s): return dict(locals())" % ((", " + sig) if sig else ""), ns)
+    ns = {"_log": [], "_snap": snap_values}
+    # the body records what it received (a copy) and then does what task bodies do: it mutates the mutable
+    # values it was given in place (appends to every list), so that any sharing with a later invocation shows
+    exec("def body(c%s):\n"
+         "    _r = dict(locals()); _r.pop('c')\n"
+         "    _s = _snap(_r); _log.append(_s)\n"
+         "    for _v in _r.values():\n"
+         "        if isinstance(_v, list): _v.append('MUT')\n"
+         "    return _s\n" % ((", " + sig) if sig else ""), ns)
     return ns["body"]
+
+
+def snap_values(d):
+    """copy of a kwargs dict whose mutable values are copied too"""
+    return {k: (list(v) if isinstance(v, list) else v) for k, v in d.items()}
 
 
 def task_kwargs(opts):
@@ -126,6 +139,7 @@ class Impl:
         self.stage = None
         self.args = self.ctx = None
         self.body, self.task = build_task(params, opts)
+        self.attrs_before = task_attrs(self.task)
         try:
             self.stage = "get_arguments"
             self.args = self.task.get_arguments(ignore_unknown_help=bool(opts.get("ign")))
@@ -134,6 +148,8 @@ class Impl:
             self.ctx = ParserContext(name="t", args=self.args)
         except Exception as e:  # noqa: the code under test may do anything
             self.error = type(e).__name__
+        self._canon = None
+        self.canon()
 
     @staticmethod
     def show_arg(a):
@@ -143,12 +159,82 @@ class Impl:
                          "1" if a.help else "0"])
 
     def canon(self):
+        """canonical form of the FIRST generation (computed once, before any history touches the objects)"""
+        if self._canon is None:
+            self._canon = self._canon_now()
+        return self._canon
+
+    def _canon_now(self):
         if self.error and self.stage == "get_arguments":
             return "EXC " + self.error
         sa = ";".join(self.arg_lines)
         if self.error:
             return sa + " # EXC " + self.error
         return sa + " # " + canon_ctx(show_ctx(self.ctx))
+
+
+TASK_ATTRS = ("positional", "optional", "iterable", "incrementable")
+
+
+def task_attrs(t):
+    """deep snapshot of the decorator options a Task keeps (help apart: see generation_history)"""
+    return {k: copy.deepcopy(getattr(t, k, None)) for k in TASK_ATTRS}
+
+
+def gen_signature(args_or_exc, name_from="t"):
+    """canonical form of one generation of a task's CLI, help strings apart: ('err', class) or ('ok', text)"""
+    from invoke.parser import ParserContext
+    if isinstance(args_or_exc, Exception):
+        return ("err", type(args_or_exc).__name__)
+    try:
+        ctx = args_or_exc if isinstance(args_or_exc, ParserContext) else ParserContext(name="t", args=args_or_exc)
+    except Exception as e:  # noqa
+        return ("err", type(e).__name__)
+    lines = [Impl.show_arg(a).rsplit("/", 1)[0] for a in ctx.args.values()]
+    return ("ok", ";".join(lines) + " # " + show_ctx(ctx))
+
+
+def generation_history(impl):
+    """Family (a): generating the CLI of the SAME Task object again - get_arguments() twice more, then the task
+    registered under two names in one collection - must give what the first generation gave, and must leave the
+    task's own options as they were.  (Help strings are not compared: the first generation consumes the help dict.)"""
+    from invoke import Collection
+    fails = []
+    opts = impl.opts
+    if impl.error and impl.stage == "get_arguments" and opts.get("help"):
+        return fails  # which help keys are left over changes once some were consumed: not constrained
+    ign = bool(opts.get("ign"))
+    first = ("err", impl.error) if impl.error else gen_signature(impl.ctx)
+    gens = []
+    for _ in range(2):
+        try:
+            gens.append(gen_signature(impl.task.get_arguments(ignore_unknown_help=ign)))
+        except Exception as e:  # noqa
+            gens.append(gen_signature(e))
+    try:
+        ns = Collection()
+        ns.add_task(impl.task, name="t")
+        ns.add_task(impl.task, name="u")
+        for c in ns.to_contexts(ignore_unknown_help=ign):
+            gens.append(gen_signature(c))
+    except Exception as e:  # noqa
+        gens.append(gen_signature(e))
+    for i, g in enumerate(gens):
+        if g != first:
+            fails.append("generation-not-repeatable param=- generation #%d of the same task differs from the first: %s  vs first  %s"
+                         % (i + 2, g[1], first[1]))
+            break
+    after = task_attrs(impl.task)
+    if after != impl.attrs_before:
+        ch = [k for k in TASK_ATTRS if after[k] != impl.attrs_before[k]]
+        fails.append("task-options-changed param=- generating the CLI changed the task's own %s: %r -> %r"
+                     % (ch[0], impl.attrs_before[ch[0]], after[ch[0]]))
+    return fails
+
+
+def template_snapshot(impl):
+    """the template context a Parser copies from: arguments incl. their current values"""
+    return (";".join(Impl.show_arg(a) + "/" + enc_val(a.raw_value) for a in impl.ctx.args.values()), show_ctx(impl.ctx))
 
 
 def show_kw(kw):
@@ -205,13 +291,14 @@ def modelable(params, opts):
 # ------------------------------------------------------------------ by-construction argvs (parse + bind)
 
 def make_argvs(rng, impl, count):
-    """Spell a few invocations that mention some parameters; returns [(argv, mentioned-names)]."""
+    """Spell a few invocations that mention some parameters (each at most once);
+    returns [(argv, mentioned-names, {name: the value given})]."""
     if impl.error:
         return []
     out = []
     args = list(impl.ctx.args.values())
     for _ in range(count):
-        argv, mentioned = [], set()
+        argv, mentioned, given = [], set(), {}
         flags = []
         for a in args:
             is_list = a.kind is list
@@ -229,15 +316,21 @@ def make_argvs(rng, impl, count):
                 if not (a.kind is int and type(a.default) is int):
                     continue  # incrementing a non-int is outside what the task author can mean
                 flags.append([spell])
+                given[a.name] = a.default + 1
             elif a.kind is bool:
+                given[a.name] = True
                 if a.default is True and rng.random() < 0.6:
                     spell = "--no-" + main
+                    given[a.name] = False
                 flags.append([spell])
             elif a.kind is int:
-                flags.append([spell, str(rng.randint(0, 9))] if rng.random() < 0.5 or len(spell) == 2 else [spell + "=" + str(rng.randint(0, 9))])
+                v = str(rng.randint(0, 9))
+                flags.append([spell, v] if rng.random() < 0.5 or len(spell) == 2 else [spell + "=" + v])
+                given[a.name] = int(v)
             elif a.kind in (str, list):
                 v = rng.choice(["v", "val", "w1"])
                 flags.append([spell, v] if rng.random() < 0.5 or len(spell) == 2 else [spell + "=" + v])
+                given[a.name] = [v] if a.kind is list else v
             else:
                 continue
             mentioned.add(a.name)
@@ -247,18 +340,20 @@ def make_argvs(rng, impl, count):
         for a in impl.ctx.positional_args:
             if a.kind is list or a.incrementable or a.default is not None:
                 continue
-            argv.append("7" if a.kind is int else rng.choice(["pv", "p2"]))
+            v = rng.choice(["pv", "p2"])
+            argv.append(v)
             mentioned.add(a.name)
-        out.append((argv, sorted(mentioned)))
+            given[a.name] = v
+        out.append((argv, sorted(mentioned), given))
     return out
 
 
-def impl_parse(impl, argv):
-    """Parse `t <argv>` with the real Parser (which works on a copy of the context);
+def impl_parse(impl, argv, parser=None):
+    """Parse `t <argv>` with the real Parser (a given one, else a new one over the template context);
     returns (kwargs | None, error class | None, parsed context | None)."""
     from invoke.parser import Parser
     try:
-        res = Parser(contexts=[impl.ctx]).parse_argv(["t"] + list(argv))
+        res = (parser or Parser(contexts=[impl.ctx])).parse_argv(["t"] + list(argv))
     except Exception as e:  # noqa
         return None, type(e).__name__, None
     if len(res) != 1:
@@ -385,7 +480,9 @@ def shared_context():
     return _SHARED["ctx"]
 
 
-def oracle_kwargs(params, body, kw, mentioned, by_name):
+def oracle_kwargs(params, body, kw, mentioned, by_name, given=None):
+    """keys = parameter names; the kwargs bind; unmentioned parameters carry the function's own default ([] for
+    list-type); with `given`, mentioned ones hold exactly the value spelled on the command line"""
     fails = []
     names = [n for n, _ in params]
     if sorted(kw) != sorted(names):
@@ -396,6 +493,8 @@ def oracle_kwargs(params, body, kw, mentioned, by_name):
         return ["kwargs-do-not-bind param=- %s" % e]
     for n, k in params:
         if n in mentioned:
+            if given is not None and n in given and not (kw[n] == given[n] and type(kw[n]) is type(given[n])):
+                fails.append("given-value-not-delivered param=%s got %r, the command line gave %r" % (n, kw[n], given[n]))
             continue
         a = by_name.get(n)
         if k == "E":
@@ -424,15 +523,84 @@ def oracle_executor(task, pctx):
     calls = ex.normalize([pctx])
     if len(calls) != 1:
         return ["executor-calls param=- %d calls" % len(calls)]
+    want = snap_values(pctx.as_kwargs)  # before the body gets (and mutates) them
     try:
         got = calls[0].task(c, **calls[0].kwargs)
     except TypeError as e:
         return ["kwargs-do-not-bind param=- calling the task: %s" % e]
-    want = dict(pctx.as_kwargs)
-    got.pop("c", None)
     if got != want:
         return ["executor-kwargs param=- body received %r, context holds %r" % (got, want)]
     return []
+
+
+def norm_step(x):
+    argv, mentioned = x[0], x[1]
+    return list(argv), set(mentioned), (x[2] if len(x) > 2 else None)
+
+
+def kwargs_history(case, impl, stats):
+    """Family (b): parse, bind, let the body mutate what it received - and again.  One Parser object for all argvs
+    in turn; then a new Parser over the same template context for the first argv again; optionally the task named twice on
+    one command line, run by the real Executor with dedupe off.  Every time: keys = parameter names, the kwargs
+    bind, mentioned parameters hold the given values, unmentioned ones the function's own defaults ([] for
+    list-type); and the template context is afterwards what it was."""
+    from invoke.parser import Parser
+    params = [tuple(p) for p in case["params"]]
+    by_name = {a.name: a for a in impl.args}
+    steps = [norm_step(x) for x in case["argvs"]]
+    before = template_snapshot(impl)
+    fails = []
+
+    def one(tag, step, parser, record):
+        argv, mentioned, given = step
+        kw, err, pctx = impl_parse(impl, argv, parser)
+        if record:
+            stats.append((argv, None if err else show_kw(kw), err))
+        if err:
+            return  # whether this spelling parses is C01/C07's business
+        fs = oracle_kwargs(params, impl.body, kw, mentioned, by_name, given)
+        fs += oracle_executor(impl.task, pctx)  # normalize -> Call -> body, which mutates what it was given
+        fails.extend(tag + ":" + f for f in fs)
+
+    same = Parser(contexts=[impl.ctx])
+    for st in steps:
+        one("after-parse", st, same, True)
+    one("new-parser-again", steps[0], None, False)
+    if case.get("h3"):
+        fails += session_history(case, impl, params, by_name, steps[0], steps[-1])
+    after = template_snapshot(impl)
+    if after != before:
+        fails.append("template-changed param=- parsing/executing changed the template context: %s -> %s" % (before[1], after[1]))
+    return fails
+
+
+def session_history(case, impl, params, by_name, st1, st2):
+    """`inv t <argv1> t <argv2>` with dedupe off through the real Executor: each invocation gets its own values"""
+    from invoke import Collection, Config, Executor
+    from invoke.parser import Parser
+    shared_context()
+    if "cfg2" not in _SHARED:
+        _SHARED["cfg2"] = Config(overrides={"tasks": {"dedupe": False}})
+    ns = Collection(impl.task)
+    try:
+        res = Parser(contexts=ns.to_contexts(ignore_unknown_help=bool(impl.opts.get("ign")))).parse_argv(
+            ["t"] + st1[0] + ["t"] + st2[0])
+    except Exception:  # noqa: not every pair of spellings can be chained; C01's business
+        return []
+    if len(res) != 2:
+        return []
+    log = impl.body.__globals__["_log"]
+    del log[:]
+    try:
+        Executor(ns, config=_SHARED["cfg2"]).execute(*res)
+    except TypeError as e:
+        return ["session:kwargs-do-not-bind param=- %s" % e]
+    if len(log) != 2:
+        return []  # how often a task runs is C04's business
+    fails = []
+    for i, (entry, st) in enumerate(zip(log, (st1, st2))):
+        fails += ["session#%d:%s" % (i + 1, f) for f in oracle_kwargs(params, impl.body, entry, st[1], by_name, st[2])]
+    return fails
 
 
 def check_case(case, rng=None, n_argv=2):
@@ -442,18 +610,13 @@ def check_case(case, rng=None, n_argv=2):
     opts = case["opts"]
     impl = Impl(params, opts)
     if rng is not None and "argvs" not in case:
-        case["argvs"] = [[a, m] for a, m in make_argvs(rng, impl, n_argv)] if nontrivial(case) or rng.random() < 0.3 else []
+        case["argvs"] = [[a, m, g] for a, m, g in make_argvs(rng, impl, n_argv)] if nontrivial(case) or rng.random() < 0.3 else []
+        case["h3"] = bool(case["argvs"]) and rng.random() < 0.2
     fails = oracle_signature(params, opts, impl)
+    fails += generation_history(impl)
     stats = []
-    if not impl.error:
-        by_name = {a.name: a for a in impl.args}
-        for argv, mentioned in case.get("argvs", []):
-            kw, err, pctx = impl_parse(impl, argv)
-            stats.append((argv, kw, err))
-            if err:
-                continue  # whether this spelling parses is C01/C07's business
-            fails += ["after-parse:" + f for f in oracle_kwargs(params, impl.body, kw, set(mentioned), by_name)]
-            fails += ["after-parse:" + f for f in oracle_executor(impl.task, pctx)]
+    if not impl.error and case.get("argvs"):
+        fails += kwargs_history(case, impl, stats)
     return impl, fails, stats
 
 
@@ -574,7 +737,7 @@ def run(ctx):
         out.exhaustive = True
     cases += ex
     out.extra["exhaustive_small_scope"] = len(ex)
-    for _ in range(ctx.n(16000, 150000)):
+    for _ in range(ctx.n(9000, 120000)):
         cases.append(random_case(rng))
     n_argv = 2
     # pass 1: the real code + oracle; collect model lines
@@ -588,6 +751,11 @@ def run(ctx):
         out.hist["impl:" + ("ok" if not impl.error else impl.error + "@" + impl.stage)] += 1
         for k in c["opts"]:
             out.hist["opt:" + k] += 1
+        if c.get("argvs"):
+            out.hist["history:parse-mutate-parse"] += 1
+        if c.get("h3"):
+            out.hist["history:two-invocations-executor"] += 1
+        out.hist["history:5-generations"] += 1
         if any(all_underscores(n) for n, _ in params):
             out.hist["underscore-only-name"] += 1
         else:
@@ -635,8 +803,8 @@ def run(ctx):
                 if got != want:
                     out.disagree(c, want, got)
             else:
-                argv, kw, err = stats[j]
-                want2 = want + " # " + ",".join(sorted(show_kw(kw).split(","))) if kw else want + " # "
+                argv, kws, err = stats[j]
+                want2 = want + " # " + (",".join(sorted(kws.split(","))) if kws else "")
                 if got != want2:
                     out.disagree({"params": c["params"], "opts": c["opts"], "argv": argv}, want2, got)
                 out.hist["model-parse"] += 1
